@@ -164,6 +164,8 @@ def batches(rng, tier):
                 note="match map bind monad::bind join apply/1 map_failure from_optional try_call success_opt failure_opt: all eithers x categories x tables")
     le = lists(EITH)
     ops = [f"e.seq R {l}" for l in le] + [f"e.first {l}" for l in le] + [f"e.loop {l}" for l in le]
+    yield Batch("either-loop-long", [f"e.looplong {n} {f}" for n in (0, 1, 2, 3, 10, 1000, 100000, 400000) for f in (0, 1, 2)],
+                note="either::loop with up to 400000 successes before the failure: the stack depth must not grow with the number of iterations")
     yield Batch("either-containers", ops, exhaustive=True,
                 note="sequence (rvalue only: the template rejects lvalues), first_success, loop (queue of next() results; a queue without "
                      "failure ends in the uncaught exception of next): all vectors of eithers up to length 4 (1555)")
